@@ -31,9 +31,11 @@ def is_maximal_run(bv, mask):
             and exists(0, len(bv), lambda k: mask[k])
             and forall(0, len(bv), lambda k: implies(mask[k], bv[k]))
             and forall(0, len(bv), lambda i: forall(i, len(bv), lambda j: implies(
-                mask[i] and mask[j], forall(i, j, lambda l: mask[l]))))
-            and forall(1, len(bv), lambda k: implies(mask[k] and bv[k - 1], mask[k - 1]))
-            and forall(0, len(bv) - 1, lambda k: implies(mask[k] and bv[k + 1], mask[k + 1])))
+                mask[i] and mask[j], forall(i, j, lambda l: mask[l], trigger=lambda l: (mask[i], mask[j], mask[l])))))
+            and forall(1, len(bv), lambda k: implies(mask[k] and bv[k - 1], mask[k - 1]),
+                       trigger=lambda k: (mask[k], bv[k - 1]))
+            and forall(0, len(bv) - 1, lambda k: implies(mask[k] and bv[k + 1], mask[k + 1]),
+                       trigger=lambda k: (mask[k], bv[k + 1])))
 
 
 @contract("spowtd.classify:get_true_interval_masks",
@@ -176,3 +178,189 @@ def _ex_gs(tier, rng):
         count += 1
         if count >= limit:
             return
+
+
+# --------------------------------------------------------------------------- uniform steps, candidate intervals
+
+@contract("spowtd.classify:check_for_uniform_time_steps", args={"epoch": "array[int]"}, returns="none")
+def _check_for_uniform_time_steps(epoch):
+    """Refuses (ValueError) exactly the sequences whose consecutive differences are not all equal;
+    sequences with fewer than two samples have no differences and are accepted (C01: short stretches)."""
+    raises(ValueError, when=exists(0, len(epoch) - 1, lambda i: epoch[i + 1] - epoch[i] != epoch[1] - epoch[0]))
+
+
+@examples("spowtd.classify:check_for_uniform_time_steps")
+def _ex_uniform(tier, rng):
+    import itertools
+    import numpy as np
+    for n in range(0, 5):
+        for steps in itertools.product([1, 2, 3], repeat=max(n - 1, 0)):
+            e = [100]
+            for s in steps:
+                e.append(e[-1] + s)
+            yield {"epoch": np.array(e[:n] if n else [], dtype=np.int64)}
+
+
+@spec
+def is_run(b, lo, hi):
+    """[lo, hi) is a maximal run of True values of b."""
+    return (0 <= lo and lo < hi and hi <= len(b)
+            and forall(lo, hi, lambda k: b[k])
+            and (lo == 0 or not b[lo - 1])
+            and (hi == len(b) or not b[hi]))
+
+
+@spec
+def mask_is_interval(mask, lo, hi):
+    return forall(0, len(mask), lambda k: mask[k] == (lo <= k and k < hi))
+
+
+@contract("spowtd.classify:get_candidate_match_intervals",
+          args={"head": "array[real]", "jump_threshold": "real", "is_raining": "array[bool]",
+                "rain_masks": "list[array[bool]]", "jump_mask": "array[bool]", "storm_index": "int"},
+          returns="tuple[tuple[int,int],tuple[int,int]]")
+def _get_candidate_match_intervals(head, jump_threshold, is_raining, rain_masks, jump_mask, storm_index, result):
+    """C03: the (start, stop) slices of the storm and of the rise are exactly their masks, both
+    maximal runs; a rise spans at least two samples, a storm at least one step."""
+    requires(len(head) == len(is_raining) and len(head) >= 2)
+    requires(0 <= storm_index and storm_index < len(rain_masks))
+    requires(is_maximal_run(is_raining, rain_masks[storm_index]))
+    requires(len(jump_mask) == len(head) - 1)
+    requires(exists(0, len(jump_mask), lambda k: jump_mask[k]))
+    requires(forall(0, len(jump_mask), lambda k: implies(jump_mask[k], head[k + 1] - head[k] > jump_threshold)))
+    requires(forall(0, len(jump_mask), lambda i: forall(i, len(jump_mask), lambda j: implies(
+        jump_mask[i] and jump_mask[j],
+        forall(i, j, lambda l: jump_mask[l], trigger=lambda l: (jump_mask[i], jump_mask[j], jump_mask[l]))))))
+    requires(forall(1, len(jump_mask), lambda k: implies(
+        jump_mask[k] and head[k] - head[k - 1] > jump_threshold, jump_mask[k - 1]),
+        trigger=lambda k: (jump_mask[k], head[k - 1])))
+    requires(forall(0, len(jump_mask) - 1, lambda k: implies(
+        jump_mask[k] and head[k + 2] - head[k + 1] > jump_threshold, jump_mask[k + 1]),
+        trigger=lambda k: (jump_mask[k], head[k + 2])))
+    ghost(after="rain_stop = ", do=lambda: cut(
+        0 <= rain_start and rain_start < rain_stop and rain_stop <= len(is_raining)
+        and rain_masks[storm_index][rain_start] and rain_masks[storm_index][rain_stop - 1]
+        and forall(0, len(is_raining), lambda k: implies(rain_masks[storm_index][k], rain_start <= k and k < rain_stop))))
+    ghost(after="jump_stop = ", do=lambda: cut(
+        0 <= jump_start and jump_start + 2 <= jump_stop and jump_stop <= len(head)
+        and jump_mask[jump_start] and jump_mask[jump_stop - 2]
+        and forall(0, len(jump_mask), lambda k: implies(jump_mask[k], jump_start <= k and k < jump_stop - 1))))
+    ensures(is_run(is_raining, result[0][0], result[0][1]))
+    ensures(mask_is_interval(rain_masks[storm_index], result[0][0], result[0][1]))
+    ensures(0 <= result[1][0] and result[1][0] + 2 <= result[1][1] and result[1][1] <= len(head))
+    ensures(mask_is_interval(jump_mask, result[1][0], result[1][1] - 1))
+    ensures(forall(result[1][0], result[1][1] - 1, lambda k: head[k + 1] - head[k] > jump_threshold))
+    ensures(result[1][0] == 0 or head[result[1][0]] - head[result[1][0] - 1] <= jump_threshold)
+    ensures(result[1][1] == len(head) or head[result[1][1]] - head[result[1][1] - 1] <= jump_threshold)
+
+
+# --------------------------------------------------------------------------- match_storms
+
+@spec
+def jump_run(head, thr, lo, hi):
+    """[lo, hi) is a slice of >= 2 samples whose increments are a maximal run above thr."""
+    return (0 <= lo and lo + 2 <= hi and hi <= len(head)
+            and forall(lo, hi - 1, lambda k: head[k + 1] - head[k] > thr)
+            and (lo == 0 or head[lo] - head[lo - 1] <= thr)
+            and (hi == len(head) or head[hi] - head[hi - 1] <= thr))
+
+
+@spec
+def cand_pair(is_raining, head, thr, ri, hi):
+    """A storm slice and a rise slice, both maximal runs, sharing at least one time step."""
+    return (is_run(is_raining, ri[0], ri[1]) and jump_run(head, thr, hi[0], hi[1])
+            and ri[0] < hi[1] - 1 and hi[0] < ri[1])
+
+
+@contract("spowtd.classify:disambiguate_matching",
+          args={"rain_intervals": "list[tuple[int,int]]", "jump_intervals": "list[tuple[int,int]]"},
+          returns="tuple[list[tuple[int,int]],list[tuple[int,int]]]")
+def _disambiguate_matching(rain_intervals, jump_intervals, result):
+    """C01: the output pairs are input pairs, and no storm and no rise occurs twice."""
+    requires(len(rain_intervals) == len(jump_intervals))
+    # intervals are determined by their start (they are maximal runs)
+    requires(forall(0, len(rain_intervals), lambda p: forall(0, len(rain_intervals), lambda q: implies(
+        rain_intervals[p][0] == rain_intervals[q][0], rain_intervals[p][1] == rain_intervals[q][1]))))
+    requires(forall(0, len(jump_intervals), lambda p: forall(0, len(jump_intervals), lambda q: implies(
+        jump_intervals[p][0] == jump_intervals[q][0], jump_intervals[p][1] == jump_intervals[q][1]))))
+    ensures(len(result[0]) == len(result[1]))
+    ensures(forall(0, len(result[0]), lambda q: exists(0, len(rain_intervals), lambda p:
+            result[0][q] == rain_intervals[p] and result[1][q] == jump_intervals[p])))
+    ensures(forall(0, len(result[0]), lambda q: forall(q + 1, len(result[0]), lambda r:
+            result[0][q][0] != result[0][r][0] and result[1][q][0] != result[1][r][0])))
+    # C02: no overlapping storm and rise, not matched to each other, such that the storm is unmatched
+    # or would obtain a strictly closer duration and the rise is unmatched or a strictly closer start
+    ensures(forall(0, len(rain_intervals), lambda p:
+            exists(0, len(result[0]), lambda q: result[0][q] == rain_intervals[p] and result[1][q] == jump_intervals[p])
+            or not (forall(0, len(result[0]), lambda q: implies(
+                        result[0][q][0] == rain_intervals[p][0],
+                        duration_gap(rain_intervals[p], jump_intervals[p]) < duration_gap(result[0][q], result[1][q])))
+                    and forall(0, len(result[0]), lambda q: implies(
+                        result[1][q][0] == jump_intervals[p][0],
+                        abs(jump_intervals[p][0] - rain_intervals[p][0]) < abs(result[1][q][0] - result[0][q][0]))))))
+
+
+@spec
+def duration_gap(ri, ji):
+    """|storm duration - rise duration| in time steps: a storm slice [a, b) lasts b - a steps, a
+    rise slice [a, b) holds b - a samples and therefore lasts b - a - 1 steps."""
+    return abs((ri[1] - ri[0]) - (ji[1] - ji[0] - 1))
+
+
+@contract("spowtd.classify:match_storms",
+          args={"rain": "array[real]", "head": "array[real]", "rain_threshold": "real", "jump_threshold": "real"},
+          returns="tuple[list[tuple[int,int]],list[tuple[int,int]]]")
+def _match_storms(rain, head, rain_threshold, jump_threshold, result):
+    """C01 + C03 at array level: every returned pair is (maximal run of rain > threshold,
+    maximal run of increments > threshold) sharing a time step; no storm, no rise twice."""
+    requires(len(rain) == len(head))
+    ensures(len(result[0]) == len(result[1]))
+    ensures(forall(0, len(result[0]), lambda q: cand_pair(
+        rain > rain_threshold, head, jump_threshold, result[0][q], result[1][q])))
+    ensures(forall(0, len(result[0]), lambda q: forall(q + 1, len(result[0]), lambda r:
+            result[0][q][0] != result[0][r][0] and result[1][q][0] != result[1][r][0])))
+    # every storm selected for this rise rains on a step of the rise
+    ghost(after="matching_storms = set(", do=lambda: cut(forall_int(lambda s: implies(
+        s in matching_storms, exists(0, len(jump_mask), lambda k:
+                                     is_raining[k] and jump_mask[k] and storm_indices[k] == s)))))
+    ghost(before="rain_interval, head_interval = get_candidate_match_intervals(", do=lambda: cut(
+        0 <= storm_index and storm_index < len(rain_masks)
+        and exists(0, len(jump_mask), lambda k: is_raining[k] and jump_mask[k] and rain_masks[storm_index][k])))
+    loop(0, inv=lambda it: len(storm_indices) == len(is_raining) and forall(0, len(is_raining), lambda k:
+         (storm_indices[k] == -1 and forall(0, it, lambda r: not rain_masks[r][k]))
+         or (0 <= storm_indices[k] and storm_indices[k] < it and rain_masks[storm_indices[k]][k])))
+    loop(1, types={"rain_intervals": "list[tuple[int,int]]", "head_intervals": "list[tuple[int,int]]"},
+         inv=lambda it: len(rain_intervals) == len(head_intervals) and forall(0, len(rain_intervals), lambda q:
+         cand_pair(is_raining, head, jump_threshold, rain_intervals[q], head_intervals[q])))
+    loop(2, inv=lambda it: len(rain_intervals) == len(head_intervals) and forall(0, len(rain_intervals), lambda q:
+         cand_pair(is_raining, head, jump_threshold, rain_intervals[q], head_intervals[q])))
+
+
+@examples("spowtd.classify:match_storms")
+def _ex_match_storms(tier, rng):
+    """All series of n <= 5 (quick) / 7 (thorough) steps with rain in {0, 5} mm/h and head
+    increments in {0, 1, 9} mm, thresholds 4 and 8: every pattern of storms / rises incl. those
+    touching the first or last sample."""
+    import itertools
+    import numpy as np
+    for n in range(0, 6 if tier == "quick" else 8):
+        for rains in itertools.product([0.0, 5.0], repeat=n):
+            for incs in itertools.product([0.0, 1.0, 9.0], repeat=max(n - 1, 0)):
+                head = [100.0]
+                for d in incs:
+                    head.append(head[-1] + d)
+                yield {"rain": np.array(rains, dtype=float), "head": np.array(head[:n], dtype=float),
+                       "rain_threshold": 4.0, "jump_threshold": 8.0}
+
+
+@examples("spowtd.classify:disambiguate_matching")
+def _ex_disambiguate(tier, rng):
+    """Many-to-many overlap relations between <= 3 storms and <= 3 rises laid out on a line."""
+    import itertools
+    storms = [(0, 1), (10, 12), (20, 23)]                     # 1, 2, 3 steps
+    rises = [(1, 3), (11, 14), (21, 25), (5, 7)]              # 1, 2, 3, 1 steps (2, 3, 4, 2 samples)
+    pairs = [(s, r) for s in storms for r in rises]
+    for k in range(0, 6 if tier == "quick" else 7):
+        for sub in itertools.combinations(pairs, k):
+            for perm in ([sub] if tier == "quick" or k > 4 else itertools.permutations(sub)):
+                yield {"rain_intervals": [p[0] for p in perm], "jump_intervals": [p[1] for p in perm]}
